@@ -3,6 +3,7 @@ package main
 
 import (
 	"fmt"
+	"math"
 	"regexp"
 	"sort"
 	"strings"
@@ -293,9 +294,10 @@ var lawV = regexp.MustCompile(`v=(\S+) in A=`)
 
 // classify mirrors the hypotheses of the partial theorems (Props/C09.lean):
 //   F-C09-succ:      prerelease-inclusive mode, the candidate lies in a successor seam (¬NoSeam);
-//   F-C09-pre-merge: release mode, the candidate is a prerelease (the theorems union_law_release /
-//                    intersect_law_release are for release candidates: merging spans loses the
-//                    "shares its numbers with a prerelease bound" admission).
+//   F-C09-pre-merge: release mode, union, the candidate is a prerelease and the hypotheses NoPreMerge /
+//                    FlagsOK of Props.C09b.union_law_pre_partial fail (preMergeClass): merging two
+//                    tagged spans forgets the inner prerelease bound that admits the candidate, or
+//                    keeps an outer one that admits candidates neither operand admits.
 func classify(oracle string, ops, res []string) string {
 	if oracle != "law" {
 		return ""
@@ -328,10 +330,120 @@ func classify(oracle string, ops, res []string) string {
 		}
 		return ""
 	}
-	if pv.IsPrerelease() {
-		return "F-C09-pre-merge"
+	if pv.IsPrerelease() && strings.HasPrefix(detail, "union:") {
+		if preMergeClass(c.sys, v, ca.Set().String(), cb.Set().String()) {
+			return "F-C09-pre-merge"
+		}
 	}
 	return ""
+}
+
+// --- the hypotheses of Props.C09b.union_law_pre_partial, on the printed sets ---
+
+type pbound struct {
+	nums [3]int64
+	tag  string
+}
+
+type pspan struct{ lo, hi pbound }
+
+func parseBound(s string) pbound {
+	s = strings.TrimPrefix(s, "v")
+	var b pbound
+	if i := strings.Index(s, "-"); i >= 0 {
+		b.tag = s[i+1:]
+		s = s[:i]
+	}
+	for i, p := range strings.Split(s, ".") {
+		if i > 2 {
+			break
+		}
+		if p == "∞" {
+			b.nums[i] = math.MaxInt64
+		} else {
+			fmt.Sscan(p, &b.nums[i])
+		}
+	}
+	return b
+}
+
+func spansOf(set string) []pspan {
+	set = strings.TrimSuffix(strings.TrimPrefix(set, "{"), "}")
+	var out []pspan
+	for _, t := range strings.Split(set, ",") {
+		if t == "" || t == "<empty>" {
+			continue
+		}
+		if t[0] == '[' || t[0] == '(' {
+			ps := strings.SplitN(t[1:len(t)-1], ":", 2)
+			if len(ps) == 2 {
+				out = append(out, pspan{parseBound(ps[0]), parseBound(ps[1])})
+			}
+		} else {
+			b := parseBound(t)
+			out = append(out, pspan{b, b})
+		}
+	}
+	return out
+}
+
+func cmpBound(sys semver.System, a, b pbound) int {
+	for i := 0; i < 3; i++ {
+		if a.nums[i] != b.nums[i] {
+			if a.nums[i] < b.nums[i] {
+				return -1
+			}
+			return 1
+		}
+	}
+	switch {
+	case a.tag == "" && b.tag == "":
+		return 0
+	case a.tag == "":
+		return 1
+	case b.tag == "":
+		return -1
+	}
+	h := ""
+	if sys == semver.Go {
+		h = "v"
+	}
+	return sys.Compare(h+"0.0.0-"+a.tag, h+"0.0.0-"+b.tag)
+}
+
+// preMergeClass is the negation of the hypotheses of Props.C09b.union_law_pre_partial as far as
+// the printed sets show them:
+//   ¬NoPreMerge: two spans of A.span++B.span (different positions) carry a prerelease tag on all
+//     four bounds, overlap or touch, and one of their bounds touches v (tagged with v's numbers, or
+//     equal to v in the order);
+//   ¬FlagsOK: an untagged bound has v's numbers (clearPre drops the tag of a wildcard-with-prerelease
+//     operand such as `<1.*.2-a` and keeps its prerelease flag, which the printed set does not show).
+func preMergeClass(sys semver.System, v string, setA, setB string) bool {
+	pv := parseBound(v)
+	all := append(spansOf(setA), spansOf(setB)...)
+	for _, s := range all {
+		for _, b := range []pbound{s.lo, s.hi} {
+			if b.tag == "" && b.nums == pv.nums {
+				return true
+			}
+		}
+	}
+	touches := func(x pbound) bool { return (x.tag != "" && x.nums == pv.nums) || cmpBound(sys, pv, x) == 0 }
+	for i := range all {
+		for j := i + 1; j < len(all); j++ {
+			x, y := all[i], all[j]
+			if x.lo.tag == "" || x.hi.tag == "" || y.lo.tag == "" || y.hi.tag == "" {
+				continue
+			}
+			if cmpBound(sys, x.hi, y.lo) < 0 || cmpBound(sys, y.hi, x.lo) < 0 {
+				continue
+			}
+			if touches(x.lo) || touches(x.hi) || touches(y.lo) || touches(y.hi) {
+				return true
+			}
+		}
+	}
+	return false
 }
 
 func permuteAlternatives(c *fw.Ctx, s string) string {
